@@ -96,6 +96,16 @@ chk("C08", "h_tt (rel, ASan, TSan)",
     "Held on every probe hit verified (>1e8 quick) and every table size x top-16-bit key value swept under ASan. Interleavings are those the hardware produces; a no-xor mutant is detected within the quick budget (see DESIGN.md).",
     "real parallelism on 16 cores; sizes below 512 entries outside the domain; generation changes only at quiescent points, as in the engine",
     "DESIGN.md section 3 C08")
+chk("C09", "texel, texelutil, h_tt (ThreadSanitizer builds)",
+    "happens-before race detection (ThreadSanitizer) over random multi-threaded UCI sessions, proof-game filter runs with worker pools and the TT hammer; every report is a violation, de-duplicated by message and engine frames",
+    "Held on every session/run executed (48 sessions + filter runs quick; 2000 sessions thorough). TSan judges by happens-before analysis, so a race is reported even when the accesses did not collide in time; it only sees pairs of accesses that executed.",
+    "TSan intercepts all synchronisation used (std::mutex/condition_variable/thread, atomics); Syzygy fence code never executes without tablebase files",
+    "DESIGN.md section 3 C09")
+chk("C18", "h_book (ASan+rel) + texel OwnBook slice",
+    "runtime monitor with fault injection on the book file: refchess judges every probe result on built-in book lines, harness-written polyglot files and their damaged versions (truncation at every residue, bit flips, shuffles, equal keys, heavy duplicates, empty/missing/directory); membership and frequency checks on well-formed files; ASan/UBSan in half of the shards",
+    "Held on every probe (7e5 quick / 2e7 thorough). The frequency claim is asserted for weight shares >= 2% over 2000 probes (miss probability < 1e-17), smaller shares are counted as not asserted.",
+    "refchess legality; the console listing Book::getAllBookMoves is exercised only on books whose entries are all legal (on garbage entries its move formatting need not terminate; it is not on the probe path)",
+    "DESIGN.md section 3 C18", category="fault_enumeration")
 
 
 def main():
@@ -139,6 +149,7 @@ def main():
             dict(name="h_pgn", path="/verif/src/h_pgn.cpp", serves_properties=["C17"], kind_free_text="in-process harness: PGN round trip with independent writer and tree model; garbage into all text entry points"),
             dict(name="h_eval", path="/verif/src/h_eval.cpp", serves_properties=["C07"], kind_free_text="in-process harness built in 5 variants (generic/SSSE3/AVX2/AVX-512/ASan)"),
             dict(name="h_tt", path="/verif/src/h_tt.cpp", serves_properties=["C08"], kind_free_text="multi-threaded in-process harness on TranspositionTable (rel/ASan/TSan)"),
+            dict(name="h_book", path="/verif/src/h_book.cpp", serves_properties=["C18"], kind_free_text="in-process harness: Book/PolyglotBook with harness-written and damaged polyglot files"),
             dict(name="h_rules", path="/verif/src/h_rules.cpp", serves_properties=["C01", "C02", "C17"], kind_free_text="in-process harness linking texellib + refchess oracle (rel and asan+ubsan builds)"),
         ],
         checks=checks,
